@@ -18,11 +18,12 @@ def abs (st : St) : ASt :=
         | some x => some { holder := e.val, till := x }
         | none => none
       | none => none,
-    secs := st.secs }
+    secs := st.secs,
+    grace := st.store.grace }
 
 theorem ASt.ext' {a b : ASt} (h1 : a.now = b.now) (h2 : ∀ k, a.lease k = b.lease k)
-    (h3 : ∀ i, a.secs i = b.secs i) : a = b := by
-  cases a; cases b; simp at *; exact ⟨h1, funext h2, funext h3⟩
+    (h3 : ∀ i, a.secs i = b.secs i) (h4 : a.grace = b.grace) : a = b := by
+  cases a; cases b; simp at *; exact ⟨h1, funext h2, funext h3, h4⟩
 
 theorem abs_holder (st : St) (h : HasTTL st) (k : String) :
     (abs st).holder k = (st.store.live k).map (fun e => { holder := e.val, till := e.exp.getD 0 }) := by
@@ -55,7 +56,13 @@ theorem abs_view (st : St) (h : HasTTL st) (k : String) : (abs st).view k = st.v
     obtain ⟨x, hx⟩ := h k e he
     by_cases hl : st.store.now < x <;> simp [he, hx, hl, Entry.liveAt, abs]
 
-theorem hasTTL_init : HasTTL St.init := by intro k e he; simp [St.init, Store.empty] at he
+theorem hasTTL_initG (g : Nat) : HasTTL (St.initG g) := by
+  intro k e he; simp [St.initG, Store.emptyG] at he
+
+theorem hasTTL_init : HasTTL St.init := hasTTL_initG 0
+
+theorem abs_initG (g : Nat) : abs (St.initG g) = ASt.initG g := by
+  apply ASt.ext' <;> intros <;> rfl
 
 theorem hasTTL_step (cfg : Nat → LockCfg) (st : St) (op : Op) (h : HasTTL st) : HasTTL (step cfg st op).1 := by
   cases op with
@@ -96,6 +103,7 @@ theorem acquireWith_refines (cfg : Nat → LockCfg) (st : St) (j secs : Nat) (h 
       · simp [hk, hf]; rfl
       · simp [hk]
     · intro i; rfl
+    · simp [ASt.grant, abs, acquireWith_grace]
   · have h1 : ¬ (abs st).freeFor (cfg j).key (cfg j).id = true := fun c => hf ((abs_freeFor st h _ _).1 c)
     have h2 : (acquireWith cfg st j secs).2 = false := by
       cases hc : (acquireWith cfg st j secs).2 with
@@ -125,6 +133,7 @@ theorem step_refines (cfg : Nat → LockCfg) (st : St) (op : Op) (h : HasTTL st)
         · simp [hk, hf]
         · simp [hk]
       · intro i; rfl
+      · simp [abs, release_grace]
     · have h1 : ¬ (abs st).heldBy (cfg j).key (cfg j).id = true := fun c => hf ((abs_heldBy st h _ _).1 c)
       have h2 : (release cfg st j).2 = false := by
         cases hc : (release cfg st j).2 with
